@@ -484,6 +484,9 @@ def _masked_byte(t: Term) -> bool:
 
 
 def run(prog, chk, tier):
+    from rules import state as _state
+
+    _state.shared_state_rules(prog, chk, "C16", _state.PYAES_MODULES)
     chk.explanation = ("All 14 lookup tables and rcon are re-generated from the GF(2^8) definitions and compared entry by entry (3614 entries). AES.encrypt, AES.decrypt "
                        "and the key schedule are interpreted by the structural abstract interpreter with concrete control and symbolic bytes; the resulting terms are evaluated "
                        "in a byte-lane XOR-normal-form domain and must equal, byte for byte, FIPS-197 (cipher, equivalent inverse cipher, key expansion for 128/192/256-bit "
